@@ -39,11 +39,13 @@ TEXTS = {
         "technique": TECH,
     },
     "C15": {
-        "text": "Theorems (Properties/C15.v): an observation passing ref_closed has no dangling id in any accessor; equal-observation test is "
-                "sound. The check runs every generated call history twice on the real Builder (with and without its failing calls), demands "
-                "identical read-API dumps, exact error codes (fails iff an absent term is named), a panic-free complete read-API walk, and "
-                "agreement with the Gallina Builder model.",
-        "design_ref": "DESIGN.md §4 C15", "note": NOTE_COMMON, "technique": TECH,
+        "text": "Theorems (Properties/C15.v): about the Gallina transcription of the Builder — for EVERY history of add_parent calls and every "
+                "history of add_* / annotate_* calls, the builder ends in exactly the state the successful calls alone produce (and those all "
+                "succeed again); every successful add_parent keeps ids unique, links resolving and children = parents^-1; and soundness of "
+                "the executable statement ref_closed (no dangling id in any accessor of an accepted observation). The check runs every "
+                "generated call history twice on the real Builder (with and without its failing calls), demands identical read-API dumps, "
+                "exact error codes (fails iff an absent term is named), a panic-free complete read-API walk, and agreement with the model.",
+        "design_ref": "DESIGN.md §4 C15, §9", "note": NOTE_COMMON, "technique": TECH,
     },
     "C16": {
         "text": "Theorems (Properties/C16.v): about the transcription — ancestor sets depend only on the parent RELATION (two arenas with the "
@@ -98,12 +100,15 @@ TEXTS = {
         "technique": TECH,
     },
     "C07": {
-        "text": "Theorems (Properties/C07.v): big-endian u32 round trip, name cut (bounded by the limit and by the name, identity when it fits, "
-                "limit fits the one-byte field; limits regenerated from the source), writer header accepted by the reader. PARTIAL: the "
-                "whole-ontology statement decode(encode o) = Ok o' with o' observationally equal to o is not yet a theorem; it is decided per "
-                "generated ontology by the Gallina encode/decode transcription run against as_bytes/from_bytes (bytes compared record-sorted, "
-                "reload dumped through the whole read API, Ontology::compare consulted) and by spec_C07 evaluated on the crate's observation.",
-        "design_ref": "DESIGN.md §4 C07", "note": NOTE_COMMON + "String::from_utf8 / is_char_boundary modelled by byte-level predicates.", "technique": TECH,
+        "text": "Theorems (Properties/C07.v, about the Gallina transcription, unbounded): record-level round trips — what the writer emits for "
+                "one term (layout v2/v3), one gene, one disease is read back as exactly that record (id, name cut at the limit, obsolete flag, "
+                "replacement, direct terms), the length prefix is the record length; a valid UTF-8 name cut at a char boundary stays valid, a "
+                "name within the limit is not cut; big-endian u32 round trip; cut bounded by limit and name; limits fit the one-byte field; "
+                "writer header accepted by the reader (constants regenerated from the source). PARTIAL: the whole-ontology statement "
+                "decode(encode o) = Ok o' with o' observationally equal to o is not yet a theorem; it is decided per generated ontology by "
+                "running the encode/decode transcription against as_bytes/from_bytes (bytes compared record-sorted, reload dumped through "
+                "the whole read API, Ontology::compare consulted) and by spec_C07 evaluated on the crate's observation.",
+        "design_ref": "DESIGN.md §4 C07, §9", "note": NOTE_COMMON + "String::from_utf8 / is_char_boundary modelled by byte-level predicates.", "technique": TECH,
     },
     "C08": {
         "text": "Theorems about the Gallina transcription of Ontology::from_bytes (Properties/C08.v, EVERY byte string): an accepted file "
@@ -160,16 +165,16 @@ TEXTS = {
         "design_ref": "DESIGN.md §4 C14", "note": NOTE_COMMON, "technique": TECH,
     },
     "C17": {
-        "text": "Theorems (Properties/C17.v, about the Gallina transcription): the Combinations iterator state machine yields, for every fuel and "
-                "every state, exactly the remaining live pairs in lexicographic order, hence Combinations::new over n live sets yields every "
-                "unordered pair exactly once; closest_clusters returns an entry of the distance matrix such that no entry is strictly "
-                "closer (for any comparison with transitive 'not less than'); an accepted leaf order is a permutation. PARTIAL: the loop "
-                "invariant (n-1 merges, binary tree, index n+k, update rules) is not yet a theorem about the model; it is decided per run by "
-                "spec_C17, which replays the crate's reported merges against a reference state (both nodes live, no live pair closer, reported "
-                "distance, sizes, method-specific update, one cluster of size n at the end, initial callback pairs each once), and by the "
-                "bit-exact diff of the transcription against the crate for the four methods.",
-        "design_ref": "DESIGN.md §4 C17",
-        "note": NOTE_COMMON + "HashMap iteration order is unspecified: on a tie the crate may merge another minimal pair than the model; such runs are decided by the replay only.",
+        "text": "Theorems (Properties/C17.v): soundness of the replay spec_C17 runs on the crate's reported merges — an accepted merge list IS "
+                "a dendrogram over the n inputs (one node per merge, lhs < rhs < n+k, reported size = leaves(lhs)+leaves(rhs) stored as size of "
+                "node n+k, live and merged nodes together without repetition exactly 0..n+|merges|-1, leaves of the live nodes = the n inputs; "
+                "with one node left: n-1 merges and last size n); about the transcription — the Combinations iterator state machine yields "
+                "exactly the remaining live pairs for every fuel, Combinations::new yields every unordered pair once, closest_clusters returns "
+                "a minimum of the matrix; an accepted leaf order is a permutation. PARTIAL: the loop invariant of the transcription itself is "
+                "not a theorem; the replay additionally checks per merge that no live pair is closer, the reported distance, and the "
+                "method-specific update (min / max / mean / user distance on the union); the transcription is diffed bit for bit.",
+        "design_ref": "DESIGN.md §4 C17, §9",
+        "note": NOTE_COMMON + "Axioms: the four standard-library axioms behind Coq Reals (via Flocq's binary32 in the replay's distance type). HashMap order: on a tie the crate may merge another minimal pair than the model; such runs are decided by the replay only.",
         "technique": TECH,
     },
     "C18": {
